@@ -152,7 +152,12 @@ MISSED_FIRST.update({
  "C16-M": "no text ended in a form feed; form feed, vertical tab, NEL and U+2028 are now text bits of the shared document grammar (strengthened before the first run)",
  "C02-M": "no text began with a form feed under trim_text_start on a buffered source; same grammar extension as C16-M (strengthened before the first run)",
 })
+MISSED_FIRST.update({
+ "C18-N": "missed at the first run: C18 always emptied the caller's event buffer before a call; every third faulted run is now repeated with a buffer that is not cleared between calls and must give the same trace (events, errors, positions)",
+})
 NOT_OWN.update({
+ "C01-N": "the change is in read_to_end (its failure path does not restore trim_text_start), like C01-G; C01's statement is about read_event. C12 and C16, whose statements it breaks, report it",
+ "C08-M": "the change is in the synchronous Read side of Reader::stream() (a read_exact that cannot be satisfied leaves the position behind); C08 speaks about the events of the borrowing reader. Missed by every check at the first run; C03's new raw-read mode now requires the position at Eof to be the input length and reports it",
  "C06-K": "the change only affects a `char` list item that is a blank; list items with whitespace are outside C06's round-trip domain (documented: list items never contain whitespace), so C06 does not generate them. C13, whose statement (no payload can change the structure; the payload found at a list-item slot is the one put there) it breaks, reports it",
 })
 OBSOLETE = {
